@@ -67,6 +67,20 @@ func (x *world) syncPoint(label string) bool {
 	if x.prop == "C15" {
 		x.checkC15(label)
 	}
+	if x.prop == "C16" && !x.c16Checked {
+		x.c16Checked = true
+		x.noteClient()
+		if x.unlockAtOpen {
+			x.env.Count("probe.recovery-unlocked")
+		} else {
+			x.env.Count("probe.recovery-locked")
+		}
+		if x.node.Tip().Height > 2000 {
+			x.env.Count("probe.batch-boundary-crossed")
+		}
+		x.env.Count("probe.c16-checked")
+		x.checkC16()
+	}
 	return !x.violated
 }
 
